@@ -200,6 +200,70 @@ func confDiff(t, c *m.TNode) string {
 	return ""
 }
 
+// substitute returns the constraint C with each dynamic placeholder replaced by
+// the corresponding part of T (a placeholder that has no corresponding part,
+// because the shapes already differ above it, stays).
+func substitute(C, T *m.TNode) *m.TNode {
+	if C.K == m.KDynamic {
+		return T
+	}
+	if T.K != C.K {
+		return C
+	}
+	switch C.K {
+	case m.KList, m.KSet, m.KMap:
+		return &m.TNode{K: C.K, Elem: substitute(C.Elem, T.Elem)}
+	case m.KTuple:
+		es := make([]*m.TNode, len(C.Elems))
+		for i, e := range C.Elems {
+			if i < len(T.Elems) {
+				es[i] = substitute(e, T.Elems[i])
+			} else {
+				es[i] = e
+			}
+		}
+		return &m.TNode{K: m.KTuple, Elems: es}
+	case m.KObject:
+		a := make(map[string]*m.TNode, len(C.Attrs))
+		for k, e := range C.Attrs {
+			if te, ok := T.Attrs[k]; ok {
+				a[k] = substitute(e, te)
+			} else {
+				a[k] = e
+			}
+		}
+		return &m.TNode{K: m.KObject, Attrs: a, Opt: copyOpt(C.Opt)}
+	}
+	return C
+}
+
+// checkConformanceLiteral decides the conformance clause the way the statement
+// words it, with the library's own Equals and WithoutOptionalAttributesDeep as
+// the comparator: t conforms to the constraint exactly when
+// strip(t).Equals(strip(constraint with its placeholders replaced by the
+// corresponding parts of t)). Only the substitution is done on the model tree.
+func (r *run) checkConformanceLiteral(T, C *m.TNode, t, cn cty.Type, conforms bool, tag string) {
+	c := r.c
+	S := substitute(C, T)
+	sc, ok := r.buildCty(S)
+	if !ok {
+		return
+	}
+	var eq bool
+	o := core.Guard(func() { eq = t.WithoutOptionalAttributesDeep().Equals(sc.WithoutOptionalAttributesDeep()) })
+	c.Eval(3)
+	if eq {
+		r.bump("oracle:TestConformance==Equals(after-substitution-and-stripping):equal")
+	} else {
+		r.bump("oracle:TestConformance==Equals(after-substitution-and-stripping):different")
+	}
+	if o.Panicked || eq != conforms {
+		c.Violate("Type.TestConformance", "conformance disagrees with Equals after substituting the placeholders and stripping the annotations", "model-reason:"+orNone(confDiff(T, C)),
+			"given "+pairText(T, C, t, cn)+" (b is the constraint)\nconstraint after substitution: "+S.String(),
+			fmt.Sprintf("TestConformance conforms=%v, strip(given).Equals(strip(substituted constraint))=%v (%s) %s", conforms, eq, tag, o.PanicMsg))
+	}
+}
+
 // checkConformance: TestConformance(t, constraint) reports no error iff
 // model.Conforms; every reported error is non-nil.
 func (r *run) checkConformance(T, C *m.TNode, t, cn cty.Type, tag string) {
@@ -213,6 +277,7 @@ func (r *run) checkConformance(T, C *m.TNode, t, cn cty.Type, tag string) {
 		return
 	}
 	got := len(errs) == 0
+	defer r.checkConformanceLiteral(T, C, t, cn, got, tag)
 	switch {
 	case want && m.TypeEq(T, C):
 		r.bump("oracle:TestConformance:conforms:equal-types")
@@ -351,27 +416,26 @@ func (r *run) checkJSON(T *m.TNode, ty cty.Type, full bool) {
 	var err error
 	o := core.Guard(func() { buf, err = ty.MarshalJSON() })
 	c.Eval(1)
-	if o.Panicked {
-		c.Violate("Type.MarshalJSON", "panic: "+core.PanicClass(o.PanicMsg), "", tyText(T, ty), o.PanicMsg+"\n"+o.Stack)
+	if m.HasCapsule(T) {
+		// The statement promises the round trip for capsule-FREE types only. What
+		// MarshalJSON does with a capsule (its documentation says: refuse) is
+		// recorded, never judged.
+		where := "capsule-inside"
+		if T.K == m.KCapsule {
+			where = "capsule-at-top"
+		}
+		switch {
+		case o.Panicked:
+			r.bump("observed(not judged):json:capsule-type:panicked:" + where)
+		case err != nil:
+			r.bump("observed(not judged):json:capsule-type:refused-with-error:" + where)
+		default:
+			r.bump("observed(not judged):json:capsule-type:marshalled:" + where)
+		}
 		return
 	}
-	if m.HasCapsule(T) {
-		if T.K == m.KCapsule {
-			r.bump("oracle:json:capsule-type-refused:capsule-at-top")
-		} else {
-			r.bump("oracle:json:capsule-type-refused:capsule-inside")
-		}
-		if err == nil {
-			c.Violate("Type.MarshalJSON", "type containing a capsule marshalled without error", "top-kind:"+T.K.String(), tyText(T, ty), fmt.Sprintf("output %s", buf))
-		}
-		if full {
-			var err2 error
-			o := core.Guard(func() { _, err2 = ctyjson.MarshalType(ty) })
-			c.Eval(1)
-			if o.Panicked || err2 == nil {
-				c.Violate("json.MarshalType", "type containing a capsule marshalled without error", "top-kind:"+T.K.String(), tyText(T, ty), o.PanicMsg)
-			}
-		}
+	if o.Panicked {
+		c.Violate("Type.MarshalJSON", "panic: "+core.PanicClass(o.PanicMsg), "", tyText(T, ty), o.PanicMsg+"\n"+o.Stack)
 		return
 	}
 	if err != nil {
@@ -399,11 +463,17 @@ func (r *run) checkJSON(T *m.TNode, ty cty.Type, full bool) {
 	var buf2 []byte
 	o = core.Guard(func() { buf2, err = ctyjson.MarshalType(ty) })
 	c.Eval(1)
-	if o.Panicked || err != nil || !bytes.Equal(buf, buf2) {
-		c.Violate("json.MarshalType", "differs from Type.MarshalJSON", "", tyText(T, ty), fmt.Sprintf("%s vs %s err=%v %s", buf2, buf, err, o.PanicMsg))
+	if o.Panicked || err != nil {
+		c.Violate("json.MarshalType", "capsule-free type failed to marshal", "", tyText(T, ty), fmt.Sprintf("err=%v %s", err, o.PanicMsg))
+		return
 	}
-	r.bump("oracle:json:round-trip:via-ctyjson.UnmarshalType")
-	r.roundTripBack("json.UnmarshalType", T, ty, buf, ctyjson.UnmarshalType)
+	if bytes.Equal(buf, buf2) { // not demanded, only recorded
+		r.bump("observed(not judged):json.MarshalType-bytes-same-as-Type.MarshalJSON")
+	} else {
+		r.bump("observed(not judged):json.MarshalType-bytes-differ-from-Type.MarshalJSON")
+	}
+	r.bump("oracle:json:round-trip:via-ctyjson.MarshalType+UnmarshalType")
+	r.roundTripBack("json.UnmarshalType", T, ty, buf2, ctyjson.UnmarshalType)
 	var buf3 []byte
 	o = core.Guard(func() { buf3, err = stdjson.Marshal(ty) })
 	c.Eval(1)
